@@ -17,6 +17,11 @@ var c07Forms = []EscForm{
 	{Name: "q", Tpl: "{%q= $V %}", Fn: 4, Itr: 1},
 	{Name: "|jsonQuote", Tpl: "{%= $V|jsonQuote %}", Fn: 4, Itr: 1},
 	{Name: "region-raw", Fn: 3, Itr: 1, Region: "jsonquote"},
+	{Name: "|je", Tpl: "{%= $V|je %}", Fn: 3, Itr: 1},
+	{Name: "|jq", Tpl: "{%= $V|jq %}", Fn: 4, Itr: 1},
+	{Name: "j-tight", Tpl: "{%j=$V%}", Fn: 3, Itr: 1},
+	{Name: "j<-default", Tpl: "{%j= nosuchvar|default($V) %}", Fn: 3, Itr: 1, MinIn: 1},
+	{Name: "q<-def", Tpl: "{%q= nosuchvar|def($V) %}", Fn: 4, Itr: 1, MinIn: 1},
 }
 
 // jsonBodySafe: RFC 8259 alphabet of a string body — no raw quote, no raw control, every backslash starts a valid escape.
